@@ -36,6 +36,7 @@ func Profile(name string, seed int64, tier string) HistOpts {
 		w[tx.TypeSellAllSwapPool] = 30
 		o.Weights = w
 		o.CustomGas = 50
+		o.OrderDance = 40
 	case "staking":
 		w := DefaultWeights()
 		for _, t := range []tx.TxType{tx.TypeDelegate, tx.TypeUnbond, tx.TypeMoveStake, tx.TypeDeclareCandidacy, tx.TypeSetCandidateOnline, tx.TypeSetCandidateOffline, tx.TypeLock, tx.TypeLockStake} {
@@ -44,6 +45,20 @@ func Profile(name string, seed int64, tier string) HistOpts {
 		o.Weights = w
 		o.ByzPct = 5
 		o.AbsentPct = 6
+	case "governance": // many votes for near heights while the validator set keeps changing
+		w := DefaultWeights()
+		for _, t := range []tx.TxType{tx.TypeSetHaltBlock, tx.TypeVoteUpdate, tx.TypeVoteCommission} {
+			w[t] = 60
+		}
+		for _, t := range []tx.TxType{tx.TypeSetCandidateOnline, tx.TypeSetCandidateOffline, tx.TypeDeclareCandidacy, tx.TypeDelegate} {
+			w[t] = 40
+		}
+		o.Weights = w
+		o.Gen = GenOpts{Candidates: 7, ValidatorN: 3, BigStakes: false}
+		o.NearVotes = true
+		o.Node.Period = 6
+		o.AbsentPct = 5
+		o.Malformed = 2
 	case "malformed":
 		o.Malformed = 60
 		o.CheckTx = true
